@@ -65,7 +65,7 @@ def obligations(tier, ctx):
         obs.append(Ob(name="bounded_" + "_".join(kt), params=[("cap", "int"), ("i", "int")], pre=["1 <= cap <= 4", "0 <= i", f"i <= H.data_len({kt!r}, False)", ("i % 7 == 0" if tier == "quick" else "True")],
                       call=f"H.routing_bounded({kt!r}, cap, i)", real=f"H.routing_bounded_real({kt!r}, cap, i)", backend="P", timeout=400, family="(d) back-pressure: read stream of symbolic capacity 1..4, consumer slower than the reader"))
     from symcheck import consts
-    lim = 110 if tier == "quick" else 1100
+    lim = 110 if tier == "quick" else 410
     nc = len(consts.size_cases(lim))
     for kind in (0, 2) if tier == "quick" else (0, 1, 2):
         for cap, nch in ((100, 1), (1, 1)) if tier == "quick" else ((100, 1), (1, 1), (100, 3), (7, 2), (100000, 1)):
